@@ -414,6 +414,42 @@ def run(ctx):
                         a, b = fq(tq)
                         pick_exprs.append(f'(pick_index {nlit} (({a})%Z, ({b})%Z))')
                         pick_plans.append((case, what, (float(ptn.x), float(ptn.y)), got, tpts[1], pts))
+            # ---- the transect dataset: one row per piece, in the same order, with that piece's cell and distances; the depth
+            # axis and its bounds as the dataset has them
+            with warnings.catch_warnings():
+                warnings.simplefilter('ignore')
+                r = attempt(lambda: t.transect_dataset)
+            if r[0] != 'ok':
+                ctx.report('property', f'transect_dataset failed: {r[1]}', case)
+                continue
+            td = r[1]
+            tbad = None
+            if [int(x) for x in td['linear_index'].values] != [int(s1.linear_index) for s1 in segs]:
+                tbad = (f'transect_dataset lists the cells {[int(x) for x in td["linear_index"].values]}, the pieces are in cells '
+                        f'{[int(s1.linear_index) for s1 in segs]}')
+            elif td['distance_bounds'].shape != (len(segs), 2) or any(
+                    tuple(float(x) for x in row) != (float(s1.start_distance), float(s1.end_distance))
+                    for row, s1 in zip(td['distance_bounds'].values, segs)):
+                tbad = 'transect_dataset distance bounds are not the (start, end) distances of the pieces, in order'
+            elif not numpy.array_equal(td['depth'].values, ds[depth_name].values):
+                tbad = 'transect_dataset depth axis differs from the depth coordinate of the dataset'
+            elif td['depth_bounds'].shape != (ds[depth_name].size, 2):
+                tbad = f'transect_dataset depth bounds have shape {td["depth_bounds"].shape}'
+            else:
+                bname = ds[depth_name].attrs.get('bounds')
+                dv = numpy.asarray(ds[depth_name].values, dtype='f8')
+                if bname in ds.variables:
+                    wantb = numpy.asarray(ds[bname].values, dtype='f8')
+                else:
+                    mid = numpy.concatenate([[dv[0]], (dv[1:] + dv[:-1]) / 2, [dv[-1]]])
+                    wantb = numpy.column_stack((mid[:-1], mid[1:]))
+                if not numpy.array_equal(numpy.asarray(td['depth_bounds'].values, dtype='f8'), wantb):
+                    tbad = (f'transect_dataset depth bounds {td["depth_bounds"].values.tolist()} are not those of the depth '
+                            f'coordinate ({wantb.tolist()})')
+            ctx.count('transect_dataset')
+            if tbad:
+                ctx.report('property', tbad, case)
+                continue
             # ---- the data prepared for plotting
             with warnings.catch_warnings():
                 warnings.simplefilter('ignore')
